@@ -161,6 +161,7 @@ def casadi(eng):
         "veccat": stub(lambda eng, *a: T("veccat", a)), "horzcat": stub(lambda eng, *a: T("horzcat", a, shape=("rows", len(a)))),
         "jacobian": stub(lambda eng, e, v: T("jacobian", (e, v))), "sparsify": stub(lambda eng, e: T("sparsify", (e,))),
         "mtimes": stub(lambda eng, a, b: T("mtimes", (a, b))), "reshape": stub(lambda eng, e, shape: T("reshape", (e, shape))),
+        "densify": stub(lambda eng, e: e if isinstance(e, DMVal) else T("densify", (e,))),
     })
     for i, nme in enumerate(["OP_INPUT", "OP_OUTPUT", "OP_CONST", "OP_SUB", "OP_ADD", "OP_MUL", "OP_DIV", "OP_NEG"]):
         mod.attrs[nme] = 100 + i
@@ -176,7 +177,7 @@ class Probe(Ext):
 
 def install(eng):
     typing = ModuleStub("typing", {})
-    eng.ext_modules.update({"casadi": casadi(eng), "numpy": ModuleStub("numpy", {"nan": float("nan"), "inf": float("inf")}),
+    eng.ext_modules.update({"casadi": casadi(eng), "numpy": np_module(),
                             "logging": ModuleStub("logging", {"getLogger": stub(lambda eng, *a: NoOp())}),
                             "itertools": ModuleStub("itertools", {}), "re": ModuleStub("re", {}), "sys": ModuleStub("sys", {"maxsize": 2 ** 63 - 1}),
                             "collections": CollectionsStub(), "typing": typing})
@@ -206,7 +207,8 @@ def h_defaults(eng):
     eng.prove("defaults.own_alias_set", z3.BoolVal(f.get("aliases") is not None))
 
 
-COERCE_VALUES = [("int", 3), ("float", 2.5), ("bool", True), ("nan", float("nan")), ("inf", float("inf")), ("intlike-float", 4.0), ("mx", "MX"), ("dm", "DM")]
+COERCE_VALUES = [("int", 3), ("float", 2.5), ("bool", True), ("nan", float("nan")), ("inf", float("inf")), ("intlike-float", 4.0), ("mx", "MX"), ("dm", "DM"),
+                 ("dm-vector", "DMV"), ("dm-matrix", "DMM")]
 
 
 def h_attribute_copy(eng):
@@ -227,6 +229,10 @@ def h_attribute_copy(eng):
     eng.input("case", {"python_type": pytype, "attribute": attr, "value": label, "scalar_symbol": scalar})
     # precondition: the attribute value is type-compatible with the declaration (Modelica type rules):
     # Boolean variables take Booleans, Integer variables integer-valued numbers (or NaN/inf defaults)
+    if label in ("dm-vector", "dm-matrix") and (scalar or pytype == "bool"):
+        from pyvc.values import PathEnd
+        raise PathEnd()
+    mshape = ((None,),) if scalar else (((2, 3),) if label == "dm-matrix" else ((3,),))
     if pytype == "bool" and label not in ("bool", "mx"):
         from pyvc.values import PathEnd
         raise PathEnd()
@@ -249,7 +255,7 @@ def h_attribute_copy(eng):
     class S(T):
         def sym_getattr(self, eng, name):
             if name == "_modelica_shape":
-                return ((None,),) if scalar else ((3,),)
+                return mshape
             if name == "is_empty":
                 return stub(lambda eng: False)
             if name == "name":
@@ -259,7 +265,9 @@ def h_attribute_copy(eng):
         def sym_setattr(self, eng, name, value):
             pass
     mxs = S("sym", (), name="x")
-    given = T("attr", ()) if val == "MX" else (DMVal(7) if val == "DM" else val)
+    # array values computed at generation time (fill, ones, linspace, products ...) arrive as numeric matrices
+    MAT = {"DMV": [[1.0], [2.0], [5.0]], "DMM": [[1.0, 2.0, 3.0], [4.0, 5.0, 6.0]]}
+    given = T("attr", ()) if val == "MX" else (DMVal(7) if val == "DM" else (DMVal(MAT[val]) if val in MAT else val))
 
     def get_mx(eng, args, kw):
         t = args[1]
@@ -284,11 +292,15 @@ def h_attribute_copy(eng):
     pyt = {"float": float, "int": int, "bool": bool}[pytype]
     if val == "MX":
         eng.prove("copy.expression_attribute_kept", z3.BoolVal(got is given))
+    elif val in ("DMV", "DMM"):
+        # (P) an array-valued attribute keeps every element at its (row, column) position, however it is stored
+        want = from_value(DMVal(MAT[val]))
+        eng.prove("copy.numeric_array_attribute_keeps_every_element_in_place", z3.BoolVal(from_value(got) == want), got=repr(from_value(got)), declared=repr(want))
     elif val == "DM":
         if scalar:
             eng.prove("copy.numeric_matrix_of_scalar_coerced_to_python_type", z3.BoolVal(type(got) is pyt and got == pyt(7)))
         else:
-            eng.prove("copy.numeric_matrix_of_array_kept", z3.BoolVal(got is given))
+            eng.prove("copy.numeric_matrix_of_array_kept", z3.BoolVal(got is given or from_value(got) == 7.0))
     else:
         # (P) value preserved; Integer / Real variables get their Python type except NaN/inf -> int
         same = (got == val) or (isinstance(val, float) and math.isnan(val) and isinstance(got, float) and math.isnan(got))
@@ -303,15 +315,23 @@ def h_attribute_copy(eng):
 
 
 class DMVal(Ext):
+    """a numeric CasADi matrix with concrete entries (rows of a dense matrix); the part of the DM interface that
+    conversions of attribute values use is modelled on the entries: nonzeros() is COLUMN-major, full() the 2-D array"""
     type_names = ("DM",)
 
     def __init__(self, v):
-        self.v = v
+        self.rows = [[float(x) for x in r] for r in v] if isinstance(v, list) else [[float(v)]]
+        self.v = self.rows[0][0]
 
     def sym_isinstance(self, eng, cls):
         return cls.name == "DM"
 
+    def _scalar(self):
+        return len(self.rows) == 1 and len(self.rows[0]) == 1
+
     def sym_unop(self, eng, op):
+        if op in ("int", "float") and not self._scalar():
+            raise PyRaise(eng.make_exc("TypeError", "only a 1-by-1 DM converts to a number"))
         if op == "int":
             return int(self.v)
         if op == "float":
@@ -320,6 +340,100 @@ class DMVal(Ext):
 
     def sym_truth(self, eng):
         return bool(self.v)
+
+    def sym_getattr(self, eng, name):
+        r, c = len(self.rows), len(self.rows[0])
+        table = {"is_scalar": lambda eng, *a: r * c == 1, "numel": lambda eng: r * c, "size1": lambda eng: r, "size2": lambda eng: c,
+                 "nonzeros": lambda eng: VList([self.rows[i][j] for j in range(c) for i in range(r)]), "nnz": lambda eng: r * c,
+                 "is_dense": lambda eng: True, "is_empty": lambda eng, *a: False, "is_vector": lambda eng: r == 1 or c == 1, "is_column": lambda eng: c == 1,
+                 "full": lambda eng: NpArr(_np().array(self.rows)), "toarray": lambda eng, *a: NpArr(_np().array(self.rows)),
+                 "elements": lambda eng: VList([self.rows[i][j] for j in range(c) for i in range(r)]),
+                 "size": lambda eng, *a: (r, c) if not a else (r, c)[a[0] - 1]}
+        if name == "shape":
+            return (r, c)
+        if name == "T":
+            return DMVal([[self.rows[i][j] for i in range(r)] for j in range(c)])
+        if name in table:
+            return stub(table[name])
+        raise Unsupported("DM.%s" % name)
+
+    def sym_getitem(self, eng, key):
+        if isinstance(key, tuple) and len(key) == 2 and all(isinstance(k, int) for k in key):
+            return DMVal(self.rows[key[0]][key[1]])
+        if isinstance(key, int):
+            r = len(self.rows)
+            return DMVal(self.rows[key % r][key // r])
+        raise Unsupported("DM[%r]" % (key,))
+
+
+def _np():
+    import numpy
+    return numpy
+
+
+class NpArr(Ext):
+    """a concrete numpy array (the VC generator's own numpy does the arithmetic: numpy's semantics, row-major reshape)"""
+    type_names = ("ndarray",)
+
+    def __init__(self, a):
+        self.a = a
+
+    def sym_getattr(self, eng, name):
+        if name == "reshape":
+            def reshape(eng, *dims, **kw):
+                d = dims[0] if len(dims) == 1 and not isinstance(dims[0], int) else dims
+                d = [int(x) for x in (eng.iterate(d) if not isinstance(d, (tuple, list)) else d)]
+                return NpArr(self.a.reshape(d, order=kw.get("order", "C")))
+            return stub(reshape)
+        if name == "tolist":
+            return stub(lambda eng: to_vlist(self.a.tolist()))
+        if name == "shape":
+            return tuple(self.a.shape)
+        if name == "T":
+            return NpArr(self.a.T)
+        if name in ("flatten", "ravel"):
+            return stub(lambda eng, order="C": NpArr(self.a.flatten(order=order)))
+        if name == "astype":
+            return stub(lambda eng, t: NpArr(self.a.astype({"int": int, "float": float, "bool": bool}[t.name])))
+        raise Unsupported("ndarray.%s" % name)
+
+    def sym_len(self, eng):
+        return len(self.a)
+
+
+def to_vlist(x):
+    return VList([to_vlist(e) for e in x]) if isinstance(x, list) else x
+
+
+def from_value(x):
+    """the matrix / vector a stored attribute value denotes, as nested Python lists (None: not a numeric array)"""
+    if isinstance(x, DMVal):
+        return [r[0] for r in x.rows] if len(x.rows[0]) == 1 else x.rows
+    if isinstance(x, NpArr):
+        return x.a.tolist()
+    if isinstance(x, VList):
+        out = [from_value(e) for e in x.items]
+        return None if any(o is None for o in out) else out
+    if isinstance(x, (int, float)):
+        return float(x)
+    return None
+
+
+def np_module():
+    def array(eng, data, dtype=None, **kw):
+        dt = kw.get("dtype", dtype)
+        raw = from_value(data) if not isinstance(data, NpArr) else data.a
+        if raw is None:
+            raise Unsupported("np.array of a non-numeric value")
+        return NpArr(_np().array(raw, dtype={"int": int, "float": float, "bool": bool}.get(getattr(dt, "name", None))))
+
+    def prod(eng, xs):
+        r = 1
+        for x in (eng.iterate(xs) if not isinstance(xs, NpArr) else xs.a.tolist()):
+            r *= x
+        return r
+    return ModuleStub("numpy", {"nan": float("nan"), "inf": float("inf"), "array": stub(array), "asarray": stub(array), "prod": stub(prod),
+                                "reshape": stub(lambda eng, a, d, **kw: eng.call(eng.getattr(a, "reshape", None, None), [d], kw))})
 
 
 SHAPES = [  # parameters, then per category list of numel (1 = scalar)
